@@ -657,6 +657,27 @@ def pstr(path):
 # judging one build
 # ---------------------------------------------------------------------------------------
 
+class _Crash(Exception):
+    def __init__(self, violation):
+        Exception.__init__(self)
+        self.violation = violation
+
+
+def call(what, tags, fn, *a, **k):
+    """Call into the code under test.  The designs are valid, so a refusal is the generator's
+    fault (HarnessError); any other exception is the analysis crashing."""
+    import pyrtl
+    try:
+        return fn(*a, **k)
+    except (HarnessError, common.RunTimeout):
+        raise
+    except pyrtl.PyrtlError as e:
+        raise HarnessError('valid design refused by %s: %s' % (what, repr(e)[:300]))
+    except Exception as e:
+        raise _Crash(Violation('crash', 'unexpected_exception',
+                               {'in': what, 'exc': repr(e)[:300]}, list(tags) + ['in:' + what]))
+
+
 def check_timing(case, b, g, res, label):
     """Returns (Violation | None, report dict for cross-schedule comparison)."""
     import pyrtl
@@ -672,10 +693,8 @@ def check_timing(case, b, g, res, label):
             funcs = custom_funcs(case['custom'])
         res.probes.hit('table:' + table)
         tags = ['table:' + table]
-        try:
-            ta = pyrtl.TimingAnalysis(block=b.block, gate_delay_funcs=funcs)
-        except pyrtl.PyrtlError as e:
-            raise HarnessError('design refused by TimingAnalysis: %r' % (repr(e)[:300],))
+        ta = call('TimingAnalysis', tags, pyrtl.TimingAnalysis, block=b.block,
+                  gate_delay_funcs=funcs)
         exp = longest_paths(g, delay)
         got = {}
         for w, v in ta.timing_map.items():
@@ -698,14 +717,14 @@ def check_timing(case, b, g, res, label):
                                   'driver': pstr([n.key])[0] if n else None},
                                  tags + ['op:' + (n.op if n else '-')]), None
         mx = max(exp.values())
-        gmx = ta.max_length()
+        gmx = call('max_length', tags, ta.max_length)
         if not close(gmx, mx, exact):
             return Violation('timing', 'max_length', {'build': label, 'got': gmx, 'expected': mx},
                              tags), None
         # ---- critical paths -----------------------------------------------------------
         buf = io.StringIO()
         with contextlib.redirect_stdout(buf):
-            cps = ta.critical_path(print_cp=False, cp_limit=CP_LIMIT)
+            cps = call('critical_path', tags, ta.critical_path, print_cp=False, cp_limit=CP_LIMIT)
         limit_hit = 'limit reached' in buf.getvalue() or len(cps) >= CP_LIMIT
         got_cps = []
         for item in cps:
@@ -758,10 +777,10 @@ def check_timing(case, b, g, res, label):
             s = 130.0 / tech
             if ff is None:
                 period = s * (mx + 189 + 194)
-                gf = ta.max_freq(tech_in_nm=tech)
+                gf = call('max_freq', tags, ta.max_freq, tech_in_nm=tech)
             else:
                 period = s * mx + ff
-                gf = ta.max_freq(tech_in_nm=tech, ffoverhead=ff)
+                gf = call('max_freq', tags, ta.max_freq, tech_in_nm=tech, ffoverhead=ff)
             ef = 1e6 / period
             if not math.isclose(gf, ef, rel_tol=1e-9):
                 return Violation('max_freq', 'formula',
@@ -772,7 +791,7 @@ def check_timing(case, b, g, res, label):
             if ff is None and tech < 130 and f130 is not None and gf < f130:
                 # not judged: the docstring promises "Dennard scaling" but gives no formula
                 res.probes.hit('max_freq_smaller_tech_is_slower')
-        gd = ta.max_freq()
+        gd = call('max_freq', tags, ta.max_freq)
         if not math.isclose(gd, 1e6 / (mx + 189 + 194), rel_tol=1e-9):
             return Violation('max_freq', 'default_formula', {'got': gd, 'max_length': mx}, tags), None
         res.log.log('timing', table, label, jdigest([sorted(got.items()), gmx, len(got_cps)]))
@@ -789,7 +808,7 @@ def check_fanout(b, g, res, label):
             res.probes.hit('dup_arg_net')
     byname = {w.name: w for w in b.block.wirevector_set}
     for name in g.names:
-        got = pyrtl.fanout(byname[name])
+        got = call('fanout', [], pyrtl.fanout, byname[name])
         if got != exp[name]:
             return Violation('fanout', 'count_mismatch',
                              {'build': label, 'wire': name, 'got': got, 'expected': exp[name],
@@ -832,38 +851,39 @@ def check_paths(case, b, g, res, label):
         expected[(s, d)] = e
     if not expected:
         return []
-    call = case.get('call', 'single')
+    mode = case.get('call', 'single')
     srcs = sorted({s for s, _d in expected})
     dsts = sorted({d for _s, d in expected})
     full = len(expected) == len(srcs) * len(dsts)
     results = {}
     try:
-        if call != 'single' and full:
-            if call == 'bulk_dstnets':
+        if mode != 'single' and full:
+            if mode == 'bulk_dstnets':
                 _x, dn = blk.net_connections()
-                pr = pyrtl.paths([byname[s] for s in srcs], {byname[d] for d in dsts},
-                                 dst_nets=dn, block=blk)
+                pr = call('paths', [mode], pyrtl.paths, [byname[s] for s in srcs],
+                          {byname[d] for d in dsts}, dst_nets=dn, block=blk)
             else:
-                pr = pyrtl.paths([byname[s] for s in srcs], [byname[d] for d in dsts], block=blk)
+                pr = call('paths', [mode], pyrtl.paths, [byname[s] for s in srcs],
+                          [byname[d] for d in dsts], block=blk)
             if not isinstance(pr, pyrtl.analysis.PathsResult):
                 return [(0, Violation('paths', 'result_type', {'type': type(pr).__name__}, []))]
             if len(pr) != len(srcs):
                 return [(0, Violation('paths', 'result_keys',
-                                      {'sources': len(pr), 'asked': len(srcs)}, [call]))]
+                                      {'sources': len(pr), 'asked': len(srcs)}, [mode]))]
             for s in srcs:
                 row = pr[byname[s]]
                 if len(row) != len(dsts):
                     return [(0, Violation('paths', 'result_keys',
-                                          {'src': s, 'dsts': len(row), 'asked': len(dsts)}, [call]))]
+                                          {'src': s, 'dsts': len(row), 'asked': len(dsts)}, [mode]))]
                 for d in dsts:
                     results[(s, d)] = row[byname[d]]
             res.probes.hit('bulk_call')
         else:
             for (s, d) in sorted(expected):
-                pr = pyrtl.paths(byname[s], byname[d], block=blk)
+                pr = call('paths', ['single'], pyrtl.paths, byname[s], byname[d], block=blk)
                 results[(s, d)] = pr[byname[s]][byname[d]]
     except KeyError as e:
-        return [(0, Violation('paths', 'result_keys', {'exc': repr(e)[:200]}, [call]))]
+        return [(0, Violation('paths', 'result_keys', {'exc': repr(e)[:200]}, [mode]))]
     finds = []
     digest = []
     for (s, d) in sorted(expected):
@@ -925,12 +945,12 @@ def check_paths(case, b, g, res, label):
         else:
             detail['missing'] = [pstr(p) for p in missing if not explained(p)][:3]
             finds.append((2, Violation('paths', 'missing_path', detail, tags0 + ['missing_path'])))
-    res.log.log('paths', call, label, jdigest(digest))
+    res.log.log('paths', mode, label, jdigest(digest))
     # ---- defaults: paths() == Inputs x Outputs -------------------------------------------
     ins = [n for n in g.names if g.kind[n] == 'I']
     outs = [n for n in g.names if g.kind[n] == 'O']
     if all(afford.get(s, walk_cost(g, s, WALK_CAP) <= WALK_CAP) for s in ins):
-        pr = pyrtl.paths(block=blk)
+        pr = call('paths', ['defaults'], pyrtl.paths, block=blk)
         keys = sorted(w.name for w in pr)
         if keys != ins:
             finds.append((0, Violation('paths', 'default_sources', {'got': keys, 'inputs': ins}, [])))
@@ -948,7 +968,7 @@ def check_paths(case, b, g, res, label):
     for (s, d) in cands[:3]:
         def f(net):
             return dl(g, g.bykey[netkey(net)]) + 2
-        dm = pyrtl.distance(byname[s], byname[d], f, block=blk)
+        dm = call('distance', [], pyrtl.distance, byname[s], byname[d], f, block=blk)
         gotd = {}
         for p, v in dm.items():
             gotd[tuple(netkey(n) for n in p)] = v
@@ -1003,6 +1023,8 @@ def run(case, res):
             if v is not None:
                 return v
             path_finds.extend(check_paths(case, b, g, res, bi))
+        except _Crash as c:
+            return c.violation
         finally:
             common.iter_seam.uninstall()
     res.sched = hashlib.sha1(repr([(s['hash_seed'], s.get('iter_policy'), s.get('iter_seed'))
